@@ -1,2 +1,93 @@
-use crate::Driver;
-pub fn driver(_name: &str) -> Option<Box<dyn Driver>> { None }
+use crate::{Driver, Outcome, Rng};
+use basset_sei_rewards_dispatcher::contract::{execute_dispatch_rewards, verif_get_swap_info};
+use basset_sei_rewards_dispatcher::state::{store_config, Config};
+use cosmwasm_std::testing::{mock_dependencies_with_balances, mock_env, mock_info, MOCK_CONTRACT_ADDR};
+use cosmwasm_std::{Api, BankMsg, Coin, CosmosMsg, Decimal, Fraction, Uint128, WasmMsg};
+use serde_json::{json, Value};
+use std::collections::BTreeMap;
+
+const E18: u128 = 1_000_000_000_000_000_000;
+fn u(v: &Value) -> u128 { v.as_str().unwrap().parse().unwrap() }
+pub fn driver(name: &str) -> Option<Box<dyn Driver>> {
+    match name {
+        "dispatch_rewards" => Some(Box::new(Dispatch)),
+        "get_swap_info" => Some(Box::new(SwapInfo)),
+        _ => None,
+    }
+}
+fn config(api: &dyn Api, rate: u128) -> Config {
+    let c = |s: &str| api.addr_canonicalize(s).unwrap();
+    Config { owner: c("owner"), hub_contract: c("hub"), bsei_reward_contract: c("reward"), stsei_reward_denom: "usei".into(), bsei_reward_denom: "uusd".into(),
+        krp_keeper_address: c("keeper"), krp_keeper_rate: Decimal::new(Uint128::new(rate)), swap_contract: c("swap"), swap_denoms: vec!["usei".into(), "uusd".into()], oracle_contract: c("oracle") }
+}
+
+pub struct Dispatch;
+impl Driver for Dispatch {
+    fn gen(&self, rng: &mut Rng, _i: u64) -> Value {
+        let rate = match rng.next() % 5 { 0 => 0, 1 => E18, 2 => E18 / 20, 3 => E18 - 1, _ => rng.below(E18 + 1) };
+        json!({"bal_b": rng.amount(E18).to_string(), "bal_s": rng.amount(E18).to_string(), "rate": rate.to_string()})
+    }
+    fn run(&self, input: &Value) -> Outcome {
+        let (bal_b, bal_s, rate) = (u(&input["bal_b"]), u(&input["bal_s"]), u(&input["rate"]));
+        let mut coins = vec![];
+        if bal_b > 0 { coins.push(Coin::new(bal_b, "uusd")); }
+        if bal_s > 0 { coins.push(Coin::new(bal_s, "usei")); }
+        let mut deps = mock_dependencies_with_balances(&[(MOCK_CONTRACT_ADDR, &coins)]);
+        let cfg = config(&deps.api, rate);
+        store_config(deps.as_mut().storage, &cfg).unwrap();
+        let res = execute_dispatch_rewards(deps.as_mut(), mock_env(), mock_info("hub", &[]));
+        let mut c = BTreeMap::new();
+        c.insert("disp#executes_for_every_balance".to_string(), res.is_ok());
+        let mut obs = json!({});
+        if let Ok(r) = res {
+            let (mut zero, mut sent_b, mut sent_s) = (false, 0u128, 0u128);
+            let mut list = vec![];
+            for m in r.messages.iter() {
+                match &m.msg {
+                    CosmosMsg::Bank(BankMsg::Send { to_address, amount }) => {
+                        for a in amount { if a.amount.is_zero() { zero = true; } if a.denom == "uusd" { sent_b += a.amount.u128(); } else { sent_s += a.amount.u128(); } list.push(json!([to_address, a.amount.to_string(), a.denom])); }
+                    }
+                    CosmosMsg::Wasm(WasmMsg::Execute { contract_addr, funds, .. }) => {
+                        for a in funds { if a.denom == "uusd" { sent_b += a.amount.u128(); } else { sent_s += a.amount.u128(); } list.push(json!([contract_addr, a.amount.to_string(), a.denom])); }
+                        if funds.is_empty() { list.push(json!([contract_addr, "exec"])); }
+                    }
+                    _ => {}
+                }
+            }
+            c.insert("disp#no_zero_send".to_string(), !zero);
+            c.insert("disp#exact_messages".to_string(), sent_b == bal_b && sent_s == bal_s);
+            let kb = (Uint128::new(bal_b) * Decimal::new(Uint128::new(rate))).u128(); let ks = (Uint128::new(bal_s) * Decimal::new(Uint128::new(rate))).u128();
+            c.insert("disp#zero_send_only_at_known_sites".to_string(), !zero || (bal_b != 0 && (kb == 0 || kb == bal_b)) || (bal_s != 0 && ks == 0));
+            obs = json!({"messages": list});
+        }
+        (c, obs)
+    }
+}
+
+pub struct SwapInfo;
+impl Driver for SwapInfo {
+    fn gen(&self, rng: &mut Rng, _i: u64) -> Value {
+        let price = match rng.next() % 4 { 0 => E18, 1 => 1_000_000 + rng.below(E18), 2 => E18 + rng.below(1_000_000 * E18), _ => 1_000_000 * E18 / (1 + rng.below(1_000_000_000_000)) };
+        json!({"st": (rng.amount(E18)).to_string(), "b": (1 + rng.amount(E18 - 1)).to_string(), "avail_st": rng.amount(E18).to_string(), "avail_b": rng.amount(E18).to_string(), "price": price.max(1_000_000).to_string()})
+    }
+    fn run(&self, input: &Value) -> Outcome {
+        let deps = cosmwasm_std::testing::mock_dependencies();
+        let (st, b, ast, ab, p) = (u(&input["st"]), u(&input["b"]), u(&input["avail_st"]), u(&input["avail_b"]), u(&input["price"]));
+        let price = Decimal::new(Uint128::new(p));
+        let inv = price.inv().unwrap();
+        let res = verif_get_swap_info(config(&deps.api, 0), Uint128::new(st), Uint128::new(b), Uint128::new(ast), Uint128::new(ab), inv, price);
+        let mut c = BTreeMap::new();
+        c.insert("gsi#always_ok".to_string(), res.is_ok());
+        let mut obs = json!({});
+        if let Ok((offer, ask)) = res {
+            let held = if offer.denom == "usei" { ast } else { ab };
+            c.insert("gsi#never_offers_more_than_held".to_string(), offer.amount.u128() <= held && ask != offer.denom);
+            let total = ast + (Uint128::new(ab) * inv).u128();
+            let share = Uint128::new(total).multiply_ratio(st, st + b).u128();
+            let ok = if ast > share { offer.denom == "usei" && ast - offer.amount.u128() == share } else { offer.denom == "uusd" && offer.amount.u128() == (Uint128::new(share - ast) * price).u128() };
+            c.insert("gsi#leaves_stsei_share".to_string(), ok);
+            obs = json!({"offer": [offer.amount.to_string(), offer.denom], "ask": ask, "share": share.to_string()});
+        }
+        (c, obs)
+    }
+}
